@@ -58,7 +58,7 @@ class DefectDojoResultSet(ResultSet):
     @classmethod
     @cache
     def from_json(cls, json_file: str | Path) -> Self:
-        with open(json_file, "r", encoding="utf-8") as file:
+        with open(json_file, "r", encoding="utf-8-sig") as file:
             data = json.load(file)
 
         result_set = cls()
